@@ -4,7 +4,7 @@ C13 - a dying pilot fails its own tasks and only those.
 Real code: TaskManager._pilot_state_cb, Task._update, Task.as_dict.
 """
 
-from vfw.api import obligation, check, reach, trace, real
+from vfw.api import obligation, check, reach, trace, real, conc
 from harness.common import (rp, rps, rpc, TSTATES, PSTATES, N_T, N_P, FINAL,
                             mk_tmgr, add_task)
 
@@ -138,7 +138,8 @@ from harness.c15 import mk_pmgr                                   # noqa: E402
 
 
 @obligation(params={'one_call': 'bool', 'swap': 'bool', 'ender': (1, 2),
-                    'pfin': (5, 7), 'ist': (0, N_T - 1)},
+                    'pfin': (5, 7), 'ist': (0, N_T - 1), 'pcur': (0, 4),
+                    'via_pmgr': 'bool'},
             partition={'quick': ('ist', 6), 'thorough': ('ist', 18)},
             timeout={'quick': 200, 'thorough': 600},
             funcs=FUNCS + ['radical/pilot/task_manager.py:TaskManager.add_pilots',
@@ -147,21 +148,27 @@ from harness.c15 import mk_pmgr                                   # noqa: E402
                            'radical/pilot/pilot.py:Pilot._update'],
             bounds='2 real Pilot objects added through TaskManager.add_pilots '
                    '(one call with a list, or two calls; either order); pilot '
-                   'p0 or p1 then ends (DONE/FAILED/CANCELED) via Pilot._update; '
+                   'p0 or p1 then ends (DONE/FAILED/CANCELED) via Pilot._update, '
+                   'or via a notification to PilotManager._state_sub_cb while '
+                   'the client knows the pilot in any of the 5 non-final '
+                   'states; '
                    '1 task per pilot, the one on the ending pilot in an '
                    'arbitrary state',
             stubs=['Pilot.as_dict -> constant dict', 'TaskManager.publish/'
                    'advance -> recorders'])
-def h_add_pilots_end(one_call, swap, ender, pfin, ist):
+def h_add_pilots_end(one_call, swap, ender, pfin, ist, pcur, via_pmgr):
     """every added pilot's end is noticed and fails exactly its own tasks"""
+    if not via_pmgr and pcur != 4: return
+    pcur = conc(pcur, 0, 4)
     tm = mk_tmgr()
     tm.publish = lambda *a, **k: None
     pm = mk_pmgr()
     pm._pcb_lock  = FakeLock()
     pm._callbacks = {m: dict() for m in rpc.PMGR_METRICS}
+    pm.advance    = lambda *a, **k: None
     pilots = []
     for pid in (PIDS[1], PIDS[2]):
-        p = mk_pilot_obj(pm, pid, rps.PMGR_ACTIVE)
+        p = mk_pilot_obj(pm, pid, PSTATES[pcur])
         p._tmgr   = None
         p.as_dict = (lambda pid=pid: {'uid': pid, 'type': 'pilot',
                                       'state': rps.PMGR_ACTIVE})
@@ -179,6 +186,15 @@ def h_add_pilots_end(one_call, swap, ender, pfin, ist):
             'b0': (opid, rps.AGENT_EXECUTING)}
     for uid, (pid, st) in pre.items():
         add_task(tm, uid, st, pilot=pid)
-    real(pm._pilots[epid]._update, {'uid': epid, 'state': PSTATES[pfin]})
+    if via_pmgr:
+        # the final state notification arrives at the pilot manager, whatever
+        # state the client currently knows for the pilot
+        try:
+            pm._state_sub_cb(rpc.STATE_PUBSUB, {'cmd': 'update', 'arg': [
+                {'type': 'pilot', 'uid': epid, 'state': PSTATES[pfin]}]})
+        except Exception as e:
+            trace('state cb raised', repr(e))
+    else:
+        real(pm._pilots[epid]._update, {'uid': epid, 'state': PSTATES[pfin]})
     reach()
     _verify(tm, pre, [epid])
